@@ -408,6 +408,13 @@ func init() {
 		return &StructV{Typ: tt, Fields: []Value{tc.Const(64, 0), tc.BvAdd(sec, tc.Const(64, 62135596800)), &PtrV{}}}
 	})
 
+	reg("time.After", func(p *Path, fn *ssa.Function, args []Value) Value {
+		// a timer channel that may fire: one buffered tick (select explores both outcomes)
+		p.objN++
+		tt := fn.Signature.Results().At(0).Type().Underlying().(*types.Chan).Elem()
+		return &ChanV{ID: p.objN, Name: "timer", Buf: []Value{p.zero(tt)}}
+	})
+
 	// ----- crypto/rand -----
 	randRead := func(p *Path, fn *ssa.Function, args []Value) Value {
 		s := args[len(args)-1].(*SliceV)
